@@ -246,9 +246,10 @@ ShiftRec(D, L, a, b) ==
       rb == Ramp(b, D, L)
       df == TLCEval([i \in 1..L |-> (ra[i] - rb[i]) % RampDen(D)])
       \* root used when the pair is built on the real classes (sizes 12 and 24: table row)
-      u  == IF L > 24 THEN 1 + Pick(L + 3 * a + 13 * b, 4, TablePick(L) - 1)
+      nzc == IF L > 24 THEN TablePick(L) ELSE 0
+      u  == IF L > 24 THEN 1 + Pick(L + 3 * a + 13 * b, 4, nzc - 1)
             ELSE Pick(L + 3 * a + 13 * b, 4, 30)
-  IN [kind |-> "shift", den |-> D, size |-> L, a |-> a, b |-> b, u |-> u,
+  IN [kind |-> "shift", den |-> D, size |-> L, a |-> a, b |-> b, u |-> u, nzc |-> nzc,
       zero |-> ZeroSumD(RampDen(D), df)]
 ShiftCase == /\ "shift" \in Kinds /\ Fresh
              /\ \E D \in ShiftDs : \E L \in ShiftLs : \E a \in 0..(D - 1) : \E b \in 0..(D - 1) :
